@@ -138,13 +138,14 @@ void *cust_malloc(size_t n) {
     g_cnt.mallocs[CUST]++;
     if (g_epoch != EP_BOTH) violate("routing: the custom malloc was called although the installed configuration does not route allocation to it");
     if (should_fail()) return nullptr;
-    size_t need = (n + 15) & ~(size_t)15;
+    size_t need = ((n ? n : 1) + 15) & ~(size_t)15;
     if (g_arena_used + 2 * REDZONE + need > ARENA_SIZE) { violate("sim: arena exhausted"); return nullptr; }
     unsigned char *p = g_arena + g_arena_used + REDZONE;  // redzone before; the next block's redzone (or arena poison) follows
     g_arena_used += REDZONE + need;
-    UNPOISON(p, n);
-    memset(p, g_fill, n);
-    record(p, n, CUST);
+    // a zero-size request yields one accessible byte, like malloc(0) -> malloc(1) on the default side (DESIGN 11)
+    UNPOISON(p, n ? n : 1);
+    memset(p, g_fill, n ? n : 1);
+    record(p, n ? n : 1, CUST);
     return p;
 }
 void cust_free(void *p) {
